@@ -546,3 +546,39 @@ def gen_parallel_case(rng: random.Random, clean=True):
         beh.append({'type': t, 'self_steps': ss, 'outputs': outs})
     init = [[i, rng.randint(0, 1)] for i in range(n) if types[i] == 'event-based']
     return dict(n=n, types=types, grp=grp, edges=edges, until=until, beh=beh, init=init, maxloop=100)
+
+
+def gen_chain_case(rng: random.Random):
+    """trigger chains: a head that steps by itself (time-based or hybrid) followed by three or four relays that only step when
+    triggered (event-based, sometimes hybrid without own steps), every hop a triggering connection, optionally one hop
+    time-shifted and one side branch; the simulator INDICES are a random permutation of the chain positions, so that the
+    start order (index order, reversed, or an explicit permutation) is unrelated to the data-flow order; flat or all in one
+    group.  Inside the data-flow hypotheses of C03 (outputs at every step, monotone output times, no initial data)."""
+    hops = rng.choice([3, 3, 4])
+    n = hops + 1
+    pos = list(range(n)); rng.shuffle(pos)          # pos[k] = index of the simulator at chain position k
+    until = rng.randint(3, 5)
+    types = [None] * n; beh = [None] * n
+    head_t = rng.choice(['time-based', 'hybrid'])
+    for k in range(n):
+        i = pos[k]
+        if k == 0:
+            types[i] = head_t
+            if head_t == 'time-based': beh[i] = {'type': 'time-based', 'step_size': rng.choice([1, 1, 2]), 'default_output': [None, ['po']]}
+            else: beh[i] = {'type': 'hybrid', 'self_steps': {str(tt): tt + 1 for tt in range(until)}, 'outputs': {f'{tt},0': [None, ['po', 'eo']] for tt in range(until + 1)}, 'default_output': [None, ['po', 'eo']]}
+        else:
+            types[i] = 'event-based' if rng.random() < 0.8 else 'hybrid'
+            attrs = ['eo'] if types[i] == 'event-based' else ['po', 'eo']
+            beh[i] = {'type': types[i], 'self_steps': {}, 'outputs': {f'{tt},{q}': [None, attrs] for tt in range(until + 1) for q in range(3)}, 'default_output': [None, attrs]}
+    edges = []
+    shifted = rng.randrange(1, hops) if rng.random() < 0.3 else None
+    for k in range(hops):
+        a, b = pos[k], pos[k + 1]
+        sa = 'po' if (k == 0 and head_t == 'time-based') else 'eo'
+        kind = 'ts' if k == shifted else 'p'
+        edges.append(dict(a=a, b=b, sa=sa, da='ti', kind=kind, shift=1 if kind == 'ts' else 0, init=False))
+    if rng.random() < 0.4:
+        k = rng.randrange(1, hops - 1) if hops > 2 else 1
+        edges.append(dict(a=pos[k], b=pos[n - 1], sa='eo', da='t2', kind='p', shift=0, init=False))      # a short cut to the last relay
+    grp = [[] for _ in range(n)] if rng.random() < 0.7 else [[0] for _ in range(n)]
+    return dict(n=n, types=types, grp=grp, edges=edges, until=until, beh=beh, init=[], maxloop=100)
